@@ -269,4 +269,6 @@ def run(repo, tier):
     res.floor('T-AXIS', 50)
     from .common import run_clone_pairs
     run_clone_pairs(repo, res, {m for m in repo.modules if m.startswith('photutils.aperture') and '.tests' not in m})
+    from .common import run_no_cached_property
+    run_no_cached_property(repo, res, {m for m in repo.modules if m.startswith('photutils.aperture')})
     return res
